@@ -2,6 +2,8 @@
 from .. import gen, bridge
 from ..ref import bip32 as rb32, path as rpath
 
+from ..core import refused
+
 PROP = "C17"
 LEVEL = "exploration"
 SHARDS = {"quick": 8, "thorough": 16}
@@ -151,11 +153,7 @@ def judge_malformed(ctx, case):
     kind = rpath.classify(s)
     if kind[0] != "malformed":
         return None            # generator produced something that denotes a path after all
-    try:
-        node = w.by_path(s)
-        obs, ok, outcome = bridge.node_obs(node), False, "returned"
-    except Exception as e:  # noqa
-        obs, ok, outcome = e, True, "raised:" + type(e).__name__
+    ok, obs, outcome = refused(lambda: bridge.node_obs(w.by_path(s)))       # (stable refusal: asked three times in a row)
     return ctx.judge("malformed", ok, case, "raise (%s)" % kind[1], obs, cls="mal|%s|%s" % (case["fault"], kind[1]),
                      outcome=outcome, mech="C17.malformed.accepted")
 
